@@ -77,6 +77,21 @@ def gen_c03_wait(rnd, sid):
                 exc_handler=True, run_empty=True, deliver_at=[])
 
 
+def gen_c03_again(rnd, sid):
+    """a three-step history: a nested loop registers a source and is closed; the source is then registered in the enclosing loop; a second, unrelated nested loop starts
+    and a handler in it emits signals of that source: they are the enclosing loop's (the second nested loop never saw a registration of it) and are held until it closes"""
+    src = ["src", rnd.randrange(3)]
+    first = [["reg_source", src]] + ([["enq", "U2", 0, src, sid.next()]] if rnd.random() < 0.5 else []) + [["close_loop"]]
+    second = [["enq", "U2", 0, src, sid.next()] for _ in range(rnd.randint(1, 3))] + ([["enq", "U2", 0, None, sid.next()]] if rnd.random() < 0.5 else []) + [["enq", "U3", 1, None, sid.next()]]
+    hs = [dict(cls="U0", hid=0, data=None, scripts=[[["new_loop", "U1", 0, sid.next()], ["reg_source", src]] + ([["new_loop", "U1", 0, sid.next()]] if rnd.random() < 0.3 else []) +
+                                                    [["new_loop", "U1", 0, sid.next()], ["enq", "U2", 0, None, sid.next()]]]),
+          dict(cls="U1", hid=1, data=None, scripts=[first, second, second]),
+          dict(cls="U2", hid=2, data=None, scripts=[[]] * 12),
+          dict(cls="U3", hid=3, data=None, scripts=[[["close_loop"]]] * 3)]
+    return dict(op="machine", mode="c03", width=80, screens=[], handlers=hs, init=[["enq", "U0", 0, None, sid.next()]], stdin=[], quit_cb=None, quit_screen=None,
+                exc_handler=True, run_empty=True, deliver_at=[])
+
+
 def gen_c03_seed(rnd, sid):
     """execute_new_loop is given a start signal whose source belongs to an enclosing loop: the signal waits for that loop (the nested loop starts empty)"""
     hs = [dict(cls="U0", hid=0, data=None, scripts=[[["reg_source", ["src", 0]]] + ([["enq", "U2", 0, None, sid.next()]] if rnd.random() < 0.5 else []) +
@@ -89,7 +104,7 @@ def gen_c03_seed(rnd, sid):
 def generate(rnd, tier):
     n = 500 if tier == "quick" else 6000
     sid = SidCounter()
-    cases = [gen_c03_seed(rnd, sid) for _ in range(n // 25)] + [gen_c03_wait(rnd, sid) for _ in range(n // 10)] + [gen_c03(rnd, sid) for _ in range(n)] + [gen_c03_chain(rnd, sid) for _ in range(n)] + [gen_case(rnd, "loop", sid) for _ in range(n // 2)] + [gen_case(rnd, "app", sid) for _ in range(n // 4)]
+    cases = [gen_c03_again(rnd, sid) for _ in range(n // 10)] + [gen_c03_seed(rnd, sid) for _ in range(n // 25)] + [gen_c03_wait(rnd, sid) for _ in range(n // 10)] + [gen_c03(rnd, sid) for _ in range(n)] + [gen_c03_chain(rnd, sid) for _ in range(n)] + [gen_case(rnd, "loop", sid) for _ in range(n // 2)] + [gen_case(rnd, "app", sid) for _ in range(n // 4)]
     if tier == "thorough":
         from harness.gen.exhaustive import loop_programs
         cases += list(loop_programs(sid))          # small-scope exhaustive: 3 663 programs
@@ -134,6 +149,43 @@ def monitor(case, obs):
             kind, at_call = calls.pop()
             if lv != at_call:
                 return "%s returned with levels %r open; at the call they were %r" % (kind, lv, at_call)
+    return ideal_routing(case, obs)
+
+
+def ideal_routing(case, obs):
+    """the routing rule on *ideal* loop levels (programs without screens): the levels are reconstructed from the API calls alone - execute_new_loop opens a new one, a
+    close_loop that returned closed the innermost - not read from the implementation's queue objects (a recycled queue object would look like the level it once was)"""
+    if case.get("screens"): return None
+    x = X(case, obs)
+    levels = [0]; nxt = 1; sources = {}; expect = {}; seen = set()
+    for i, ev, ctx in x.events():
+        if ctx.get("reader"): continue
+        if ev[0] == "api" and ev[1] in ("force_quit", "raise_exit", "raise_err"): return None        # (unwinding: the ideal levels would have to follow the exception)
+        if ev[0] == "EXC-handled": return None
+        if ev[0] == "api" and ev[1] == "new_loop":
+            levels.append(nxt)
+            if x.cls_handlers.get(ev[2]):
+                expect[ev[4]] = nxt
+                if len(ev) > 5 and ev[5] is not None:
+                    for l in reversed(levels[:-1]):
+                        if tuple(ev[5]) in sources.get(l, ()): expect[ev[4]] = l; break
+            nxt += 1
+        if ev[0] == "api<" and ev[1] == "close_loop":
+            if len(levels) <= 1: return None
+            levels.pop()
+        if ev[0] == "api" and ev[1] == "reg_source": sources.setdefault(levels[-1], set()).add(tuple(ev[2]))
+        if ev[0] == "api" and ev[1] == "enq":
+            _, _, cls, prio, src, sid = ev
+            if not x.cls_handlers.get(cls) or sid in expect: continue
+            tgt = levels[-1]
+            if src is not None:
+                for l in reversed(levels):
+                    if tuple(src) in sources.get(l, ()): tgt = l; break
+            expect[sid] = tgt
+        if ev[0] == "H" and ev[2] in expect and ev[2] not in seen:
+            seen.add(ev[2])
+            if expect[ev[2]] in levels and levels[-1] != expect[ev[2]]:
+                return "signal %d belongs to loop level %r (counting the loops opened so far) but was dispatched while level %r was the innermost one (open: %r)" % (ev[2], expect[ev[2]], levels[-1], levels)
     return None
 
 
